@@ -173,6 +173,7 @@ package transaction
 //@   ensures [C05] distinctsigners: result.Code == 0 && tx.SignatureType == SigTypeMulti ==> old(forall j int, k int :: 0 <= j && j < k && k < len(sigs) ==> recovered(hashOf(tx), sigs[j].R.val, sigs[j].S.val, sigs[j].V.val) != recovered(hashOf(tx), sigs[k].R.val, sigs[k].S.val, sigs[k].V.val))
 //@   # C05: only the sender's balances can go down (for a check redemption also the issuer's, who pays the fee)
 //@   ensures [C05] onlypayer: tx.Type != TypeRedeemCheck ==> forall c types.CoinID, a types.Address :: a != snd ==> bal(accs, c, a) >= old(bal(accs, c, a))
+//@   local usedAccounts map[types.Address]bool
 //@   loop 0 invariant bounds: -1 <= rangeindex && rangeindex < len(sigs)
 //@   loop 0 invariant used: forall k int :: 0 <= k && k <= rangeindex ==> usedAccounts[recovered(hashOf(tx), sigs[k].R.val, sigs[k].S.val, sigs[k].V.val)]
 //@   loop 0 invariant distinct: forall j int, k int :: 0 <= j && j < k && k <= rangeindex ==> recovered(hashOf(tx), sigs[j].R.val, sigs[j].S.val, sigs[j].V.val) != recovered(hashOf(tx), sigs[k].R.val, sigs[k].S.val, sigs[k].V.val)
